@@ -4,6 +4,7 @@ import Driver.D23
 import Driver.D25
 import Driver.D29
 import Driver.D31
+import Driver.DParse
 /-
 `model`: reads one case per line (`stream<TAB>field…`), prints the model's canonical answer.
 Imports model files only (no Mathlib), so it links as a native executable.
@@ -20,6 +21,7 @@ def dispatch (line : String) : String :=
     else if stream ∈ ["maxdepth"] then c25 stream fs
     else if stream ∈ ["lit", "i32", "f64fix", "typrint"] then c10 stream fs
     else if stream ∈ ["lex", "lexlim"] then c03 stream fs
+    else if stream ∈ ["parse"] then cParse stream fs
     else "unknown-stream"
 
 partial def loop (h : IO.FS.Stream) (out : IO.FS.Stream) : IO Unit := do
